@@ -21,6 +21,7 @@ package lib
 import (
 	"fmt"
 	"io"
+	"reflect"
 	"runtime"
 	"sort"
 	"strings"
@@ -42,7 +43,8 @@ type c05Case struct {
 }
 
 type c05Out struct {
-	key, msg string
+	key, msg string    // harness trouble or a violation that makes further judging pointless
+	viols    []c05Viol // every violated rule (several can be reported; an open known finding does not hide the others)
 	classes  []string
 	nontriv  bool
 }
@@ -182,6 +184,9 @@ func c05Classes(c c05Case, evs []c05Ev) (classes []string, nontriv bool) {
 		set["sched:controlled"] = true
 	}
 	for _, e := range evs {
+		if e.Op == "close-ret" {
+			continue
+		}
 		if e.Err == "closed" && e.Op != "close" {
 			set["stopped-by-close:at-"+e.Op] = true
 			continue
@@ -191,7 +196,10 @@ func c05Classes(c c05Case, evs []c05Ev) (classes []string, nontriv bool) {
 		}
 		switch e.Op {
 		case "read":
-			if e.N > 0 {
+			if e.N == 0 && e.Err == "" {
+				set["read:zero-length"] = true
+				nontriv = true
+			} else if e.N > 0 {
 				set["read:data+"+e.Err] = true
 				nontriv = true
 			} else {
@@ -221,7 +229,11 @@ func c05Classes(c c05Case, evs []c05Ev) (classes []string, nontriv bool) {
 			}
 		case "close":
 			nontriv = true
-			set["close:err"] = true
+			if e.Err != "" {
+				set["close:err"] = true
+			} else {
+				set["close:slow"] = true
+			}
 		}
 	}
 	for k := range set {
@@ -241,9 +253,51 @@ func c05Describe(e c05Ev) string {
 	return fmt.Sprintf("%s.%s#%d(seq%d) err=%q", c05ConnName[e.Conn], e.Op, e.Call, e.Seq, e.Err)
 }
 
-// c05JudgeStreams checks fidelity, completeness and teardown attribution for both directions from
-// the recorded events.
-func c05JudgeStreams(evs []c05Ev, done [2]int) (key, msg string, accepted [2]int64) {
+type c05Viol struct{ key, msg string }
+
+// c05WGCounter reads the counter of a sync.WaitGroup (go1.23 layout: atomic.Uint64 "state", counter
+// in the high 32 bits). c05WGReadable is established by a self-test; without it the
+// WaitGroup-vs-Close ordering is not asserted.
+func c05WGCounter(wg *sync.WaitGroup) (n int, ok bool) {
+	defer func() {
+		if recover() != nil {
+			ok = false
+		}
+	}()
+	st := reflect.ValueOf(wg).Elem().FieldByName("state")
+	if !st.IsValid() {
+		return 0, false
+	}
+	v := st.FieldByName("v")
+	if !v.IsValid() || v.Kind() != reflect.Uint64 {
+		return 0, false
+	}
+	return int(int32(v.Uint() >> 32)), true
+}
+
+var c05WGReadable = func() bool {
+	var wg sync.WaitGroup
+	read := func(want int) bool { n, ok := c05WGCounter(&wg); return ok && n == want }
+	if !read(0) {
+		return false
+	}
+	wg.Add(2)
+	if !read(2) {
+		return false
+	}
+	wg.Done()
+	if !read(1) {
+		return false
+	}
+	wg.Done()
+	return read(0)
+}()
+
+// c05JudgeStreams checks fidelity, completeness, the reason of every end and teardown (attribution,
+// ordering against the WaitGroup) for both directions from the recorded events. It returns every
+// violated rule (at most one per rule and direction).
+func c05JudgeStreams(evs []c05Ev, done [2]int) (viols []c05Viol, accepted [2]int64) {
+	add := func(key, format string, a ...any) { viols = append(viols, c05Viol{key, fmt.Sprintf(format, a...)}) }
 	for d := 0; d < 2; d++ {
 		src, dst := d, 1-d
 		var reads, writes []c05Ev
@@ -251,14 +305,22 @@ func c05JudgeStreams(evs []c05Ev, done [2]int) (key, msg string, accepted [2]int
 		var peerClose [2]int // seq of the first Close anybody else issued on conn
 		giveUp := done[d]
 		var dlErrSeq []int
-		for _, e := range evs {
+		var lastIO *c05Ev // last Read / Write / SetDeadline result handed to this direction
+		for i := range evs {
+			e := evs[i]
+			mine := false
 			switch {
 			case e.Op == "read" && e.Conn == src:
 				reads = append(reads, e)
+				mine = true
 			case e.Op == "write" && e.Conn == dst:
 				writes = append(writes, e)
-			case e.Op == "setdl" && e.Dir == d && e.Err != "":
-				dlErrSeq = append(dlErrSeq, e.Seq)
+				mine = true
+			case e.Op == "setdl" && e.Dir == d:
+				mine = true
+				if e.Err != "" {
+					dlErrSeq = append(dlErrSeq, e.Seq)
+				}
 			case e.Op == "close":
 				if e.Dir == d {
 					if ownClose[e.Conn] == 0 {
@@ -270,6 +332,9 @@ func c05JudgeStreams(evs []c05Ev, done [2]int) (key, msg string, accepted [2]int
 				} else if peerClose[e.Conn] == 0 {
 					peerClose[e.Conn] = e.Seq
 				}
+			}
+			if mine {
+				lastIO = &evs[i]
 			}
 		}
 		readBefore := func(seq int) int {
@@ -283,21 +348,25 @@ func c05JudgeStreams(evs []c05Ev, done [2]int) (key, msg string, accepted [2]int
 		}
 		failAt := -1
 		got := 0
+		streamBad := false
 		for j, wr := range writes {
 			accepted[d] += int64(wr.N)
-			if failAt < 0 {
+			if failAt < 0 && !streamBad {
 				if wr.Bad >= 0 {
-					return "stream:offered-differs-from-read", fmt.Sprintf("%s: %s offers bytes that are not the next bytes returned by %s.Read: first difference at stream offset %d (loss, duplication, reordering or corruption)",
-						c05DirName[d], c05Describe(wr), c05ConnName[src], wr.Off+wr.Bad), accepted
+					add("stream:offered-differs-from-read", "%s: %s offers bytes that are not the next bytes returned by %s.Read: first difference at stream offset %d (loss, duplication, reordering or corruption)",
+						c05DirName[d], c05Describe(wr), c05ConnName[src], wr.Off+wr.Bad)
+					streamBad = true
+				} else if rb := readBefore(wr.Seq); wr.Off+wr.Len > rb {
+					add("stream:offered-more-than-read", "%s: %s offers bytes up to offset %d but only %d bytes had been read", c05DirName[d], c05Describe(wr), wr.Off+wr.Len, rb)
+					streamBad = true
+				} else {
+					got = wr.Off + wr.Len
 				}
-				if rb := readBefore(wr.Seq); wr.Off+wr.Len > rb {
-					return "stream:offered-more-than-read", fmt.Sprintf("%s: %s offers bytes up to offset %d but only %d bytes had been read", c05DirName[d], c05Describe(wr), wr.Off+wr.Len, rb), accepted
-				}
-				got = wr.Off + wr.Len
 			}
-			if wr.BadDl >= 0 {
-				return "stream:delivered-not-a-prefix", fmt.Sprintf("%s: after an earlier write was only partly accepted, %s makes the destination accept bytes that do not continue what it already has (hole or repeat at delivered offset %d)",
-					c05DirName[d], c05Describe(wr), wr.BadDl), accepted
+			if wr.BadDl >= 0 && !streamBad {
+				add("stream:delivered-not-a-prefix", "%s: after an earlier write was only partly accepted, %s makes the destination accept bytes that do not continue what it already has (hole or repeat at delivered offset %d)",
+					c05DirName[d], c05Describe(wr), wr.BadDl)
+				streamBad = true
 			}
 			if failAt < 0 && (wr.Err != "" || wr.N < wr.Len) {
 				failAt = j
@@ -308,7 +377,7 @@ func c05JudgeStreams(evs []c05Ev, done [2]int) (key, msg string, accepted [2]int
 			failSeq = writes[failAt].Seq
 		}
 		need := readBefore(failSeq)
-		if got < need {
+		if got < need && !streamBad {
 			// which Read returned the first byte that was never offered?
 			var r c05Ev
 			for _, x := range reads {
@@ -335,29 +404,51 @@ func c05JudgeStreams(evs []c05Ev, done [2]int) (key, msg string, accepted [2]int
 					k = "dropped:data-returned-with-error"
 					what = fmt.Sprintf("returned together with %q", r.Err)
 				}
-				return k, fmt.Sprintf("%s: %d byte(s) %s were never offered to %s.Write although it was still open and no write had failed: %s; read %d bytes, offered %d",
-					c05DirName[d], need-got, what, c05ConnName[dst], c05Describe(r), need, got), accepted
+				add(k, "%s: %d byte(s) %s were never offered to %s.Write although it was still open and no write had failed: %s; read %d bytes, offered %d",
+					c05DirName[d], need-got, what, c05ConnName[dst], c05Describe(r), need, got)
 			}
+		}
+		if done[d] == 0 {
+			continue
+		}
+		// a direction may only end because one side failed: the last result it was handed before it
+		// started to tear down has to be an error (EOF, reset, time-out, closed by the peer direction,
+		// failed SetDeadline ...) or a short write. A zero-length read without error is not an end.
+		if lastIO != nil && lastIO.Err == "" && !(lastIO.Op == "write" && lastIO.N < lastIO.Len) {
+			add("ended-without-failure", "%s stopped relaying and tore the tunnel down although neither side had failed: the last result it got was %s (no error, no short write); everything after it is lost",
+				c05DirName[d], c05Describe(*lastIO))
 		}
 		// teardown: this direction ended; it has to close both connections itself unless the other
 		// direction had closed that connection before.
-		if done[d] != 0 {
-			for cidx := 0; cidx < 2; cidx++ {
-				if ownClose[cidx] != 0 {
-					continue
+		for cidx := 0; cidx < 2; cidx++ {
+			if ownClose[cidx] != 0 {
+				continue
+			}
+			if peerClose[cidx] != 0 && peerClose[cidx] < giveUp {
+				continue
+			}
+			role := "source"
+			if cidx == dst {
+				role = "destination"
+			}
+			add("teardown:"+role+"-not-closed", "%s ended but never closed its %s connection (%s), and nobody had closed it before", c05DirName[d], role, c05ConnName[cidx])
+		}
+		// ordering: a direction closes its destination synchronously before it signals the WaitGroup
+		// (only the source is closed asynchronously). So whenever a direction's own Close of its
+		// destination is entered or returns, that direction's Done is still outstanding.
+		for _, e := range evs {
+			if (e.Op == "close" || e.Op == "close-ret") && e.Dir == d && e.Conn == dst && e.WG == 0 {
+				when := "was entered"
+				if e.Op == "close-ret" {
+					when = "returned"
 				}
-				if peerClose[cidx] != 0 && peerClose[cidx] < giveUp {
-					continue
-				}
-				role := "source"
-				if cidx == dst {
-					role = "destination"
-				}
-				return "teardown:" + role + "-not-closed", fmt.Sprintf("%s ended but never closed its %s connection (%s), and nobody had closed it before", c05DirName[d], role, c05ConnName[cidx]), accepted
+				add("teardown:waitgroup-released-before-close", "%s: the WaitGroup counter was already 0 when its Close of the destination connection (%s) %s: Proxy's wg.Wait() can return (and the tunnel be reported closed) while that connection is still open / a goroutine is still inside Close",
+					c05DirName[d], c05ConnName[dst], when)
+				break
 			}
 		}
 	}
-	return "", "", accepted
+	return
 }
 
 func c05CheckCounts(accepted [2]int64, tsUp, tsDown int64, pre, post c05Counters) (string, string) {
@@ -410,6 +501,9 @@ func c05RunPipes(c c05Case) (out c05Out) {
 	logger := log.New(io.Discard, "", 0)
 	var wg sync.WaitGroup
 	wg.Add(2)
+	if c05WGReadable {
+		w.wgN = func() int { n, _ := c05WGCounter(&wg); return n }
+	}
 	run := func(d int, src, dst c05View, tag string) {
 		var pan any
 		defer func() { w.finish(d, pan) }()
@@ -428,7 +522,14 @@ func c05RunPipes(c c05Case) (out c05Out) {
 		w.mu.Lock()
 		done := w.done
 		w.mu.Unlock()
-		if k, _, _ := c05JudgeStreams(evs, done); !strings.HasPrefix(k, "teardown:") || !returned || time.Since(t0) > 5*time.Second {
+		vs, _ := c05JudgeStreams(evs, done)
+		pending := false
+		for _, v := range vs {
+			if strings.HasSuffix(v.key, "-not-closed") {
+				pending = true
+			}
+		}
+		if !pending || !returned || time.Since(t0) > 5*time.Second {
 			break
 		}
 		if i < 100 {
@@ -478,19 +579,17 @@ func c05RunPipes(c c05Case) (out c05Out) {
 		out.key, out.msg = "goroutine-leak", fmt.Sprintf("goroutines still inside the relay 10 s after both directions returned: %v", gs)
 		return
 	}
-	key, msg, accepted := c05JudgeStreams(evs, done)
-	if key != "" {
-		out.key, out.msg = key, msg
-		return
-	}
+	viols, accepted := c05JudgeStreams(evs, done)
+	out.viols = viols
 	for _, cn := range []*c05Conn{client, covert} {
 		if !cn.isClosed() {
-			out.key, out.msg = "teardown:connection-left-open", fmt.Sprintf("the %s connection was never closed", c05ConnName[cn.idx])
-			return
+			out.viols = append(out.viols, c05Viol{"teardown:connection-left-open", fmt.Sprintf("the %s connection was never closed", c05ConnName[cn.idx])})
 		}
 	}
 	post := c05Snap()
-	out.key, out.msg = c05CheckCounts(accepted, atomic.LoadInt64(&stats.BytesUp), atomic.LoadInt64(&stats.BytesDown), pre, post)
+	if k, m := c05CheckCounts(accepted, atomic.LoadInt64(&stats.BytesUp), atomic.LoadInt64(&stats.BytesDown), pre, post); k != "" {
+		out.viols = append(out.viols, c05Viol{k, m})
+	}
 	return
 }
 
@@ -502,6 +601,9 @@ func c05Check(t vh.Fataler, rec *vh.Rec, c c05Case) {
 	}
 	if o.key != "" {
 		rec.Violation(t, o.key, c, "%s [%s; sched=%q]", o.msg, c.Label, c.Sched)
+	}
+	for _, v := range o.viols {
+		rec.Violation(t, v.key, c, "%s [%s; sched=%q]", v.msg, c.Label, c.Sched)
 	}
 }
 
@@ -534,6 +636,10 @@ func (f c05Fault) String() string {
 		return fmt.Sprintf("%s: Write#%d accepts %d, err %s", c05DirName[f.Dir], f.Pos, f.Accept, e)
 	case "read-alone":
 		return fmt.Sprintf("%s: %s alone after %d chunks", c05DirName[f.Dir], f.Err, f.Pos)
+	case "read-zero":
+		return fmt.Sprintf("%s: zero-length read (0, nil) before chunk %d", c05DirName[f.Dir], f.Pos)
+	case "close-slow":
+		return fmt.Sprintf("Close(%s) takes %d ms", c05ConnName[f.Dir], f.Accept)
 	case "read-data":
 		return fmt.Sprintf("%s: chunk %d returned together with %s", c05DirName[f.Dir], f.Pos, f.Err)
 	}
@@ -553,6 +659,9 @@ func c05AllFaults() []c05Fault {
 			for _, k := range rk {
 				fs = append(fs, c05Fault{Dir: d, Kind: "read-data", Pos: pos, Err: k})
 			}
+		}
+		for pos := 0; pos <= 6; pos++ {
+			fs = append(fs, c05Fault{Dir: d, Kind: "read-zero", Pos: pos})
 		}
 		for call := 0; call < c05BaseCalls; call++ {
 			fs = append(fs,
@@ -576,6 +685,7 @@ func c05AllFaults() []c05Fault {
 		for _, k := range []string{"reset", "timeout", "eio"} {
 			fs = append(fs, c05Fault{Dir: cidx, Kind: "close", Err: k})
 		}
+		fs = append(fs, c05Fault{Dir: cidx, Kind: "close-slow", Accept: 2})
 	}
 	return fs
 }
@@ -598,22 +708,47 @@ func (c *c05Case) script(cidx int) *c05Script {
 	return &c.Covert
 }
 
-// c05Apply injects a fault into the case. A read fault that lies behind an earlier read fault on
-// the same connection is unreachable and left out.
+// c05ChunkIdx returns the index in s.Reads of data chunk number pos (zero-length steps are not
+// counted), len(s.Reads) for pos == number of chunks, -1 if there are fewer chunks.
+func c05ChunkIdx(s *c05Script, pos int) int {
+	n := 0
+	for i, st := range s.Reads {
+		if st.N > 0 {
+			if n == pos {
+				return i
+			}
+			n++
+		}
+	}
+	if n == pos {
+		return len(s.Reads)
+	}
+	return -1
+}
+
+// c05Apply injects a fault into the case. Read positions count data chunks. A read fault that lies
+// behind an earlier read fault on the same connection is unreachable and left out.
 func c05Apply(c *c05Case, f c05Fault) {
 	switch f.Kind {
 	case "read-alone":
 		s := c.script(f.Dir) // a direction reads the connection with its own index
-		if f.Pos <= len(s.Reads) && !c05HasReadFault(s, f.Pos) {
-			s.Reads = append([]c05Step(nil), s.Reads[:f.Pos]...)
+		if i := c05ChunkIdx(s, f.Pos); i >= 0 && !c05HasReadFault(s, i) {
+			s.Reads = append([]c05Step(nil), s.Reads[:i]...)
 			s.End = f.Err
 		}
 	case "read-data":
 		s := c.script(f.Dir)
-		if f.Pos < len(s.Reads) && !c05HasReadFault(s, f.Pos+1) {
-			s.Reads = append([]c05Step(nil), s.Reads[:f.Pos+1]...)
-			s.Reads[f.Pos].Err = f.Err
+		if i := c05ChunkIdx(s, f.Pos); i >= 0 && i < len(s.Reads) && !c05HasReadFault(s, i+1) {
+			s.Reads = append([]c05Step(nil), s.Reads[:i+1]...)
+			s.Reads[i].Err = f.Err
 			s.End = f.Err
+		}
+	case "read-zero":
+		s := c.script(f.Dir)
+		if i := c05ChunkIdx(s, f.Pos); i >= 0 && !c05HasReadFault(s, i) {
+			r := append([]c05Step(nil), s.Reads[:i]...)
+			r = append(r, c05Step{N: 0})
+			s.Reads = append(r, s.Reads[i:]...)
 		}
 	case "write":
 		s := c.script(1 - f.Dir)
@@ -626,6 +761,8 @@ func c05Apply(c *c05Case, f c05Fault) {
 		s.DF = append(s.DF, c05DF{Dir: f.Dir, Call: f.Pos, Err: f.Err})
 	case "close":
 		c.script(f.Dir).CloseErr = f.Err
+	case "close-slow":
+		c.script(f.Dir).CloseMs = f.Accept
 	}
 }
 
@@ -658,9 +795,9 @@ func c05Replay(t *testing.T, rec *vh.Rec) bool {
 
 // Every single fault, at every position, under every enumeration schedule.
 func TestVerif_C05_single(t *testing.T) {
-	rec := vh.NewRec("C05", "single", "exhaustive: the two halfPipes wired as in Proxy over two scripted connections; base script of 6 chunks per direction (1 B, 700 B, 32767, 32768, 32769, 65536 / 32769, 3, 65536, 1500, 32768, 32767 = 8 Reads each with the 32 KiB buffer) x every single fault {EOF, ECONNRESET, EPIPE, timeout, EIO alone before chunk 0..6; the same five returned together with chunk 0..5; on each of the 8 Writes: short write accepting 0 / 1 / len-1 with nil error, errors with 0 / 300 / len-1 bytes accepted; SetDeadline failing at call 0..9 on source or destination, as seen by either direction; Close failing on either connection} x base end {both peers silent (stall time-out), both EOF} x 6 schedules (alternating with 0-3 calls of phase shift, up runs first, down runs first); non-trivial = an injected fault other than a plain EOF alone was hit; distinct by case")
+	rec := vh.NewRec("C05", "single", "exhaustive: the two halfPipes wired as in Proxy over two scripted connections; base script of 6 chunks per direction (1 B, 700 B, 32767, 32768, 32769, 65536 / 32769, 3, 65536, 1500, 32768, 32767 = 8 Reads each with the 32 KiB buffer) x every single fault {EOF, ECONNRESET, EPIPE, timeout, EIO alone before chunk 0..6; the same five returned together with chunk 0..5; a zero-length read (0, nil) before chunk 0..6; on each of the 8 Writes: short write accepting 0 / 1 / len-1 with nil error, errors with 0 / 300 / len-1 bytes accepted; SetDeadline failing at call 0..9 on source or destination, as seen by either direction; Close failing, or taking 2 ms (lingering), on either connection} x base end {both peers silent (stall time-out), both EOF} x 6 schedules (alternating with 0-3 calls of phase shift, up runs first, down runs first); non-trivial = an injected fault other than a plain EOF alone was hit; distinct by case")
 	defer rec.Flush()
-	rec.Require("read:data+eof", "read:data+reset", "read:data+timeout", "read:reset", "read:epipe", "read:timeout", "read:eof",
+	rec.Require("read:data+eof", "read:data+reset", "read:data+timeout", "read:reset", "read:epipe", "read:timeout", "read:eof", "read:zero-length", "close:slow",
 		"write:short", "write:err+partial", "write:err", "write:epipe", "write:timeout", "setdl:first", "setdl:nth", "close:err",
 		"stopped-by-close:at-read", "stopped-by-close:at-write", "stopped-by-close:at-setdl", "chunk:1B", "chunk:=32KiB", "chunk:>32KiB(split)")
 	c05QuietStats(t)
@@ -753,6 +890,8 @@ func c05GenScript(rt *rapid.T, name string, dirs []int) c05Script {
 		}
 		if rapid.IntRange(0, 7).Draw(rt, name+".haserr") == 0 {
 			st.Err = rapid.SampledFrom(c05ReadErrs).Draw(rt, name+".err")
+		} else if rapid.IntRange(0, 9).Draw(rt, name+".zero") == 0 {
+			st.N = 0 // a zero-length read without error
 		}
 		s.Reads = append(s.Reads, st)
 	}
@@ -773,6 +912,9 @@ func c05GenScript(rt *rapid.T, name string, dirs []int) c05Script {
 	}
 	if rapid.IntRange(0, 4).Draw(rt, name+".hasclose") == 0 {
 		s.CloseErr = rapid.SampledFrom([]string{"reset", "timeout", "eio", "enotconn"}).Draw(rt, name+".closeerr")
+	}
+	if rapid.IntRange(0, 39).Draw(rt, name+".slowclose") == 0 {
+		s.CloseMs = rapid.IntRange(1, 3).Draw(rt, name+".closems")
 	}
 	return s
 }
@@ -797,9 +939,9 @@ func c05Gen(rt *rapid.T) c05Case {
 }
 
 func TestVerif_C05_random(t *testing.T) {
-	rec := vh.NewRec("C05", "random", "rapid-drawn scripts for both connections: 0-8 read chunks (1 B .. 100000 B, biased to the 32 KiB buffer boundary), each with probability 1/8 returned together with an error {EOF, reset, EPIPE, time-out, EIO, unexpected EOF, ETIMEDOUT, ECONNABORTED}, end {silent, EOF, reset, time-out, EPIPE, EIO}, 0-2 write faults (call 0-12, accepted count 0/1/len-1/len-2/100/16384/32767/all, nil error or reset/EPIPE/time-out/EIO/ENOBUFS), optional SetDeadline fault (either direction, call 0-10), optional Close error; schedule: 1/3 real concurrency, 2/3 a drawn 0-48 step turn schedule then alternating; non-trivial = an injected fault other than a plain EOF alone was hit; distinct by case")
+	rec := vh.NewRec("C05", "random", "rapid-drawn scripts for both connections: 0-8 read steps (chunks of 1 B .. 100000 B, biased to the 32 KiB buffer boundary, or with probability ~1/11 a zero-length read without error), each chunk with probability 1/8 returned together with an error {EOF, reset, EPIPE, time-out, EIO, unexpected EOF, ETIMEDOUT, ECONNABORTED}, end {silent, EOF, reset, time-out, EPIPE, EIO}, 0-2 write faults (call 0-12, accepted count 0/1/len-1/len-2/100/16384/32767/all, nil error or reset/EPIPE/time-out/EIO/ENOBUFS), optional SetDeadline fault (either direction, call 0-10), optional Close error, optional lingering Close (1-3 ms); schedule: 1/3 real concurrency, 2/3 a drawn 0-48 step turn schedule then alternating; non-trivial = an injected fault other than a plain EOF alone was hit; distinct by case")
 	defer rec.Flush()
-	rec.Require("read:data+eof", "write:short", "write:err+partial", "setdl:first", "setdl:nth", "close:err", "sched:free", "sched:controlled", "stopped-by-close:at-write")
+	rec.Require("read:data+eof", "read:zero-length", "write:short", "write:err+partial", "setdl:first", "setdl:nth", "close:err", "close:slow", "sched:free", "sched:controlled", "stopped-by-close:at-write")
 	c05QuietStats(t)
 	if c05Replay(t, rec) {
 		return
